@@ -96,18 +96,14 @@ _file = ["builder::adt_builder::AdtBuilder::{new,with_version,add_texture,add_mo
          "builder::validation::*", "builder::serializer::serialize_to_writer", "builder::serializer::write_mcnk_chunk", "builder::serializer::calculate_mhdr_offsets",
          "builder::serializer::calculate_mcin_entries", "chunk_discovery::discover_chunks", "version::AdtVersion::detect_from_chunks",
          "root_parser::parse_root_adt", "root_parser::parse_mcnk_chunks", "chunks::strings::parse_null_terminated_strings"]
-H("C14", "adt", _A, "thorough", "C14.g whole tile through builder -> serialize_to_writer -> discover_chunks -> parse_root_adt: framing tiles the file, MHDR/MCIN entries point at chunks of the named type, version and content survive",
-  ["c14g_file_vanilla_early", "c14g_file_tbc_flight_bounds"], _file,
-  "1 texture / 1 model / 1 WMO (concrete names), one doodad and one WMO placement with all fields symbolic, one terrain chunk with symbolic flags/indices/area/holes/position, flight bounds (18 x i16) symbolic for TBC",
-  "one name per list, one placement per list, one MCNK without sub-chunks; versions VanillaEarly and TBC(+MFBO)",
-  assumes=["doodad scale != 0 (builder precondition)", "name_id 0 (the only valid reference)"], stubs=_ST3, timeout=2400)
-H("C14", "adt", _A, "thorough", "C14.g whole tile, WotLK: generated MTXF present and announced by MHDR, version detected, content other than texture flags survives",
-  ["c14g_file_wotlk"], _file, "as above, terrain chunk header zero", "as above; version WotLK",
-  assumes=["texture flags not compared (known finding KF-C14-mtxf-unbounded)"], stubs=_ST3, timeout=2400)
-H("C14", "adt", _A, "thorough", "C14.g witness: Vanilla 1.9+ tile detected as another version", ["c14g_version_vanilla_late_witness"], _file,
-  "concrete tile built for VanillaLate", "one input", stubs=_ST3, timeout=2400, expect="witness:KF-C14-version-detect")
-H("C14", "adt", _A, "thorough", "C14.g witness: MTXF read past the end of its chunk", ["c14g_file_wotlk_mtxf_witness"], _file,
-  "concrete tile built for WotLK with 1 texture", "one input", stubs=_ST3, timeout=2400, expect="witness:KF-C14-mtxf-unbounded")
+H("C14", "adt", _A, "thorough", "C14.h witness: Vanilla 1.9+ tile detected as another version (detector on the documented root chunk set)",
+  ["c14h_version_vanilla_late_witness"], ["version::AdtVersion::detect_from_chunks"],
+  "concrete: chunk map holding MCIN and MCNK (of the 8 ids the detector asks for, the only ones a VanillaLate tile has at root level)", "one input",
+  stubs=[FMT, TID, RS], timeout=2400, expect="witness:KF-C14-version-detect")
+H("C14", "adt", _A, "thorough", "C14.g witness: MTXF read past the end of its chunk (smallest file)", ["c14g_mtxf_read_past_chunk_witness"],
+  ["builder::serializer::write_chunk", "builder::serializer::write_mcnk_chunk", "chunk_discovery::discover_chunks", "root_parser::parse_root_adt",
+   "chunks::simple::parse_texture_flags"], "concrete: MVER, MHDR, MTXF [7], one empty MCNK", "one input", stubs=_ST3, timeout=2400,
+  expect="witness:KF-C14-mtxf-unbounded")
 H("C14", "adt", _A, "quick", "canary", ["c14_serializer_canary"], ["builder::serializer::calculate_mhdr_offsets"], "vacuity twin", "-",
   expect="canary", stubs=_ST)
 
